@@ -778,6 +778,13 @@ func (f *Fn) expand(e ast.Expr, depth int) ast.Expr {
 	case *ast.ParenExpr:
 		return f.expand(x.X, depth)
 	case *ast.Ident:
+		if f.subst != nil {
+			if o := f.ObjOf(x); o != nil {
+				if w, ok := f.subst[o]; ok {
+					return w
+				}
+			}
+		}
 		if d := f.LocalDef(x); d != nil {
 			return f.expand(d, depth+1)
 		}
@@ -816,6 +823,9 @@ func (f *Fn) expand(e ast.Expr, depth int) ast.Expr {
 		n.X = f.expand(x.X, depth)
 		return &n
 	case *ast.IndexExpr:
+		if v := f.memoValue(x, depth); v != nil {
+			return v
+		}
 		n := *x
 		n.X, n.Index = f.expand(x.X, depth), f.expand(x.Index, depth)
 		return &n
@@ -839,6 +849,139 @@ func (f *Fn) expand(e ast.Expr, depth int) ast.Expr {
 	}
 	return e
 }
+
+// memoValue sees through a table filled once per element: for a local map M whose only writes in the enclosing
+// function declaration are its creation (make / empty literal) and one `M[k] = E` executed for every element k of a
+// range loop, M[x] is E with x in place of k. It returns nil for anything else.
+func (f *Fn) memoValue(ix *ast.IndexExpr, depth int) ast.Expr {
+	if depth > 6 {
+		return nil
+	}
+	id, ok := ast.Unparen(ix.X).(*ast.Ident)
+	if !ok {
+		return nil
+	}
+	m, ok := f.ObjOf(id).(*types.Var)
+	if !ok || m.IsField() || m.Pkg() == nil || m.Parent() == m.Pkg().Scope() {
+		return nil
+	}
+	if _, isMap := m.Type().Underlying().(*types.Map); !isMap {
+		return nil
+	}
+	// the enclosing declaration
+	var decl *ast.FuncDecl
+	for n := f.Prog.Parent(ix); n != nil; n = f.Prog.Parent(n) {
+		if fd, ok := n.(*ast.FuncDecl); ok {
+			decl = fd
+			break
+		}
+	}
+	if decl == nil || decl.Body == nil {
+		return nil
+	}
+	var store *ast.AssignStmt
+	bad := false
+	ast.Inspect(decl.Body, func(n ast.Node) bool {
+		switch s := n.(type) {
+		case *ast.AssignStmt:
+			for i, l := range s.Lhs {
+				l = ast.Unparen(l)
+				if lid, isId := l.(*ast.Ident); isId && f.ObjOf(lid) == types.Object(m) {
+					// creation: make(...) or an empty literal
+					if len(s.Lhs) != len(s.Rhs) {
+						bad = true
+						continue
+					}
+					r := ast.Unparen(s.Rhs[i])
+					if cl, isLit := r.(*ast.CompositeLit); isLit && len(cl.Elts) == 0 {
+						continue
+					}
+					if c, isCall := r.(*ast.CallExpr); isCall {
+						if fid, isId := c.Fun.(*ast.Ident); isId && fid.Name == "make" {
+							continue
+						}
+					}
+					bad = true
+				}
+				if lx, isIx := l.(*ast.IndexExpr); isIx && f.ObjOf(ast.Unparen(lx.X)) == types.Object(m) {
+					if store != nil || len(s.Lhs) != 1 || len(s.Rhs) != 1 || s.Tok != token.ASSIGN {
+						bad = true
+					}
+					store = s
+				}
+			}
+		case *ast.IncDecStmt:
+			if lx, isIx := ast.Unparen(s.X).(*ast.IndexExpr); isIx && f.ObjOf(ast.Unparen(lx.X)) == types.Object(m) {
+				bad = true
+			}
+		case *ast.UnaryExpr:
+			if s.Op == token.AND && f.ObjOf(ast.Unparen(s.X)) == types.Object(m) {
+				bad = true
+			}
+		case *ast.CallExpr:
+			// the map handed to another function (delete, clear, a helper) may be changed there
+			for _, a := range s.Args {
+				if f.ObjOf(ast.Unparen(a)) == types.Object(m) {
+					if fid, isId := s.Fun.(*ast.Ident); isId && (fid.Name == "len") {
+						continue
+					}
+					bad = true
+				}
+			}
+		}
+		return true
+	})
+	if bad || store == nil {
+		return nil
+	}
+	rs, ok := f.Prog.Parent(f.Prog.Parent(store)).(*ast.RangeStmt)
+	if !ok || rs.Body == nil || len(rs.Body.List) == 0 {
+		return nil
+	}
+	// the store is a statement of the loop body itself (executed for every element) and keyed by the loop variable
+	direct := false
+	for _, st := range rs.Body.List {
+		if st == ast.Stmt(store) {
+			direct = true
+		}
+		switch st.(type) {
+		case *ast.AssignStmt, *ast.ExprStmt, *ast.DeclStmt:
+		default:
+			return nil // branches before the store could skip it
+		}
+	}
+	if !direct {
+		return nil
+	}
+	key := ast.Unparen(store.Lhs[0].(*ast.IndexExpr).Index)
+	kid, ok := key.(*ast.Ident)
+	if !ok {
+		return nil
+	}
+	kobj := f.ObjOf(kid)
+	isLoopVar := false
+	for _, lv := range []ast.Expr{rs.Key, rs.Value} {
+		if lid, ok := lv.(*ast.Ident); ok && lid.Name != "_" && f.Info().Defs[lid] == kobj {
+			isLoopVar = true
+		}
+	}
+	if !isLoopVar || kobj == nil {
+		return nil
+	}
+	old := f.subst
+	f.subst = map[types.Object]ast.Expr{kobj: f.expand(ix.Index, depth+1)}
+	for k, v := range old {
+		if _, dup := f.subst[k]; !dup {
+			f.subst[k] = v
+		}
+	}
+	out := f.expand(store.Rhs[0], depth+1)
+	f.subst = old
+	return out
+}
+
+// MemoValue is memoValue for the rules.
+func (f *Fn) MemoValue(ix *ast.IndexExpr) ast.Expr { return f.memoValue(ix, 0) }
 
 func rootIdent(e ast.Expr) *ast.Ident {
 	id, _ := ast.Unparen(e).(*ast.Ident)
